@@ -12,6 +12,7 @@ type genParams struct {
 	MinNodes                              int  // lower bound of the node budget (0: 1)
 	Chain                                 int  // > 0: the forest starts with a chain of only children this deep (+ up to 24 more levels)
 	Hostile                               bool // names may contain '/', '.', leading blanks, bullets
+	Fan                                   int  // > 0: one node gets this many (up to half as many more) children, every fifth with children of its own
 }
 
 type rtree struct {
@@ -104,6 +105,31 @@ func randForest(rng *rand.Rand, p genParams) []*rtree {
 			all = append(all, t)
 			cur = t
 			budget--
+		}
+	}
+	if p.Fan > 0 {
+		// one level far wider than any buffer a walker or an encoder may keep (hundreds of siblings)
+		par := all[rng.Intn(len(all))]
+		for depth[par] >= p.MaxDepth-1 {
+			par = roots[0]
+		}
+		w := p.Fan + rng.Intn(p.Fan/2+1)
+		for k := 0; k < w; k++ {
+			nc := p.NChunks // (distinct names, three chunks each: nothing merges)
+			t := &rtree{name: []string{fmt.Sprintf("k%d", 1+k/(nc*nc)%nc), fmt.Sprintf("k%d", 1+k/nc%nc), fmt.Sprintf("k%d", 1+k%nc)}}
+			par.kids = append(par.kids, t)
+			depth[t] = depth[par] + 1
+			all = append(all, t)
+			budget--
+			if k%5 == 4 {
+				for g := 0; g <= rng.Intn(2); g++ {
+					u := &rtree{name: pick()}
+					t.kids = append(t.kids, u)
+					depth[u] = depth[t] + 1
+					all = append(all, u)
+					budget--
+				}
+			}
 		}
 	}
 	// one time in four: a WIDE node (9..16 children) whose later children repeat names first used late
